@@ -200,7 +200,10 @@ func (k *Keys) ContractUC() types.UnlockConditions {
 }
 
 // V1Form forms a v1 contract with WindowStart=h+a, WindowEnd=WindowStart+b, file size F.
-func V1Form(a, b uint64, F uint64) Action {
+func V1Form(a, b uint64, F uint64) Action { return V1FormSalted(a, b, F, -1) }
+
+// V1FormSalted is V1Form with a salt in the arbitrary data (changes the contract ID and hence the challenged leaf).
+func V1FormSalted(a, b uint64, F uint64, salt int) Action {
 	return Action{fmt.Sprintf("v1form(a=%d,b=%d,F=%d)", a, b, F), func(bc *BlockCtx) bool {
 		if !bc.V1OK() {
 			return false
@@ -228,6 +231,9 @@ func V1Form(a, b uint64, F uint64) Action {
 			SiacoinInputs:  []types.SiacoinInput{{ParentID: p.ID, UnlockConditions: w.Keys.StdUC(KeyOf(c))}},
 			SiacoinOutputs: []types.SiacoinOutput{{Value: p.SiacoinOutput.Value.Sub(payout).Sub(Fee), Address: w.Keys.Addr(AddrV1)}},
 			FileContracts:  []types.FileContract{fc}, MinerFees: []types.Currency{Fee},
+		}
+		if salt >= 0 {
+			txn.ArbitraryData = [][]byte{[]byte(fmt.Sprintf("salt-%d", salt))}
 		}
 		w.SignV1Whole(&txn)
 		bc.Used[types.Hash256(p.ID)] = true
@@ -328,7 +334,7 @@ func V1Proof(atEnd bool) Action {
 			}
 			return fc.WindowStart <= bc.H && bc.H < fc.WindowEnd
 		})
-		if !ok || bc.RevisedInBlock[types.Hash256(fce.ID)] {
+		if !ok {
 			return false
 		}
 		windowID := w.Hist[cur.WindowStart-1].B.ID()
@@ -526,7 +532,10 @@ func (w *World) NewV2Contract(h, a, b, F uint64) types.V2FileContract {
 }
 
 // V2Form forms a v2 contract.
-func V2Form(a, b, F uint64) Action {
+func V2Form(a, b, F uint64) Action { return V2FormSalted(a, b, F, -1) }
+
+// V2FormSalted is V2Form with a salt in the arbitrary data.
+func V2FormSalted(a, b, F uint64, salt int) Action {
 	return Action{fmt.Sprintf("v2form(a=%d,b=%d,F=%d)", a, b, F), func(bc *BlockCtx) bool {
 		if !bc.V2OK() {
 			return false
@@ -542,6 +551,9 @@ func V2Form(a, b, F uint64) Action {
 		txn := types.V2Transaction{SiacoinInputs: []types.V2SiacoinInput{{Parent: p}},
 			SiacoinOutputs: []types.SiacoinOutput{{Value: p.SiacoinOutput.Value.Sub(cost).Sub(Fee), Address: w.Keys.Addr(AddrV2)}},
 			FileContracts:  []types.V2FileContract{fc}, MinerFee: Fee}
+		if salt >= 0 {
+			txn.ArbitraryData = []byte(fmt.Sprintf("salt-%d", salt))
+		}
 		w.SignV2(&txn)
 		bc.Used[types.Hash256(p.ID)] = true
 		bc.addV2("v2form", txn)
